@@ -213,7 +213,13 @@ def check_visited_set(F, b, scc_members, ctx_desc=""):
                 ok = True
     if not ok:
         return False, "the contains test does not cut the recursion off"
-    return True, "insert dominates %d recursive call(s); contains precedes insert" % len(rec)
+    # the set is also the bound on the work: it only grows (an id taken out again can be walked once per path that leads to it)
+    for pth in sorted(scc_members):
+        mb = F.bodies.get(pth)
+        for c in (mb.calls if mb is not None else []):
+            if re.search(r"HashSet::<.*>::(remove|take|clear|retain|drain)$", c.fn or c.name):
+                return False, "the visited set shrinks again (%s at line %d in %s): it bounds the depth of the walk but no longer its size" % ((c.fn or c.name).rsplit("::", 1)[-1], c.ln, F.canon_of(mb))
+    return True, "insert dominates %d recursive call(s); contains precedes insert; the set only grows" % len(rec)
 
 
 def check_counter(F, b, callee_suffix, param_name, also=()):
